@@ -681,7 +681,8 @@ def scale_graph(gd, c=1.0, tmul=1.0, unit=None, generation_time=None):
     for d in g['demes']:
         if 'start_time' in d: d['start_time'] = T(d['start_time'])
         for e in d['epochs']:
-            e['end_time'] = T(e['end_time']); e['start_size'] *= c; e['end_size'] *= c
+            e['end_time'] = T(e['end_time']); e['start_size'] *= c
+            if 'end_size' in e: e['end_size'] *= c
     for m in g.get('migrations', []):
         m['rate'] /= c; m['start_time'] = T(m['start_time']); m['end_time'] = T(m['end_time'])
     for p in g.get('pulses', []):
@@ -1049,6 +1050,16 @@ def edge_cases():
         ndim = max(len(o['nu']) for o in ops if o['op'] == 'integrate')
         out.append(dict(kind='graph', key=key, which=kind, graph=gd, samples=samples, ops=ops, ns=[3] * len(samples),
                         pts=(10 if kind != 'five-demes-frozen' else 6), ndim=ndim, cost=0.05))
+    # units / order of the samples with ancient samples (frozen branches added before the conversion to generations; round 4)
+    for kind, rel_ in (('slice-exponential', 'units'), ('five-demes-frozen', 'units'), ('slice-linear', 'order'), ('five-demes-frozen', 'order')):
+        gd, samples, ops = edge_graph(kind)
+        ndim = max(len(o['nu']) for o in ops if o['op'] == 'integrate')
+        base = dict(graph=gd, samples=samples, ns=[3] * len(samples), pts=(10 if kind != 'five-demes-frozen' else 6), ndim=ndim, cost=0.05)
+        if rel_ == 'units':
+            out.append(dict(base, kind='units', key='units:ancient', which='units-ancient:' + kind, unit='years', generation_time=25.0))
+        else:
+            perm = list(range(len(samples)))[1:] + [0]
+            out.append(dict(base, kind='order', key='order:ancient', which='order-ancient:' + kind, perm=perm))
     for kind, ops in EDGE_EXPORT.items():
         d = max(len(o['nu']) for o in ops if o['op'] == 'integrate')
         key = 'export' + ''.join(':' + x for x in export_features(ops))
@@ -1099,12 +1110,18 @@ def run(chk, ctx):
                 'exponential/linear epochs spanning several intervals; asymmetric and symmetric migrations) -> every interval, deme and rate of '
                 '_get_integration_parameters/_sizes_at_time/_make_nu_func vs the generated formulas; recording stubs with marker values for every branch of '
                 '_integrate_phi/_split_phi/_admix_*; every primitive\'s real Demes.cache records vs the generated path table; output()\'s end times and scalings. '
+'K graph level (harness/c16_graph.py): _migration_rate_in_interval (also objects with .demes only), epoch search of _sizes_at_time (also intervals no epoch covers), '
+                'DemesUtil.slice on whole graphs, _augment_with_ancient_samples, the graph SFS hands to the importer (captured inside SFS; generations and years), intervals / demes '
+                'present / events / T / frozen flags / migration matrices / nu functions of whole graphs, the recorded call sequence of _compute_sfs and the final reorder_pops, '
+                '_admix_new_pop_phi for every choice and order of parents. '
                 'L3: each history is written twice (demes graph / hand-written dadi program) by harness/c16_scen.py; families graph, ancient (frozen branches, '
                 'only-ancient = sliced graph), scale/units/order/Ne relations, export+re-import of random programs (1-5 populations) and fixed edge cases; '
                 'distinct = different event sequence / axes / size functions / relation parameters; spectra disagreeing beyond 1e-9 (corners excluded) are '
                 'recomputed at 1/4 and 1/16 of the time step and on a grid twice as fine and must converge.')
     chk.unproved = ['the numerical spectrum itself (integration, from_phi): equality of graph and program spectra is validated, not proved',
-                    'the demes library (graph resolution, in_generations, discrete_demographic_events) and DemesUtil.slice are not modelled; ancient samples vs frozen branches is L3 only',
+                    'the demes library (graph resolution, in_generations, discrete_demographic_events) is not modelled: the list of split / branch / merge / admix / pulse '
+                    'events is an input of the model; that a frozen branch gives the spectrum of an ancient sample is validated (L3), the graph transformation is proved',
+                    'composition (loops of _get_demographic_events / _get_integration_parameters / _compute_sfs, _apply_event\'s pop_ids) is a hand-written model of translated pieces, tied by K',
                     'exp/log/power in size functions are uninterpreted in the theorems; the harness evaluates the model terms with numpy',
                     'round trip through Demes.output is validated numerically; only the record table, end times and unit scalings are proved',
                     'DemesUtil.swipe is not covered (its result has several roots, which from_demes rejects)']
